@@ -95,7 +95,4 @@ SpecialField(k) ==
     [] k = "_comprehension_ifs" -> "ifs" [] k = "_aliases" -> "names" [] k = "_withitems" -> "items"
     [] k = "_type_params" -> "type_params" [] k = "_pattern_attrlikes" -> "patterns" [] OTHER -> ""
 
-(* kinds CPython has a native stand-alone syntax for: the piece must parse without an enclosing bracket, except   *)
-(* where the documentation says a root may stay unparenthesised / is only valid inside its container              *)
-EmbedRows == {[kind |-> k, alts |-> EmbedOf(k)] : k \in AllKinds}
 =============================================================================
